@@ -203,7 +203,7 @@ func (x *Exec) doCallEx(st *State, fr *Frame, site ssa.Instruction, cc *ssa.Call
 
 func (x *Exec) callFunction(st *State, fr *Frame, site ssa.Instruction, fn *ssa.Function, args []*Val, binds []*Val, deferOf *Frame, kn func(*State, []*Val), kp func(*State, *Val)) {
 	key := fnKey(fn)
-	if bm, ok := builtinModels[key]; ok {
+	if bm := lookupBuiltinModel(key); bm != nil {
 		bm(x, st, fr, site, fn, args, kn, kp)
 		return
 	}
